@@ -24,6 +24,8 @@ Lemma sbk_wr : forall s s', same_but_kst s s' -> s_wr s' = s_wr s. Proof. intros
 
 Lemma cn_set_muts : forall c l a f, cn (set_muts c l a) f = cn c f. Proof. reflexivity. Qed.
 Lemma cn_add_pwok : forall c ks f, cn (add_pwok c ks) f = cn c f. Proof. reflexivity. Qed.
+Lemma cn_add_kl : forall c t ks f, cn (add_kl c t ks) f = cn c f. Proof. reflexivity. Qed.
+Lemma cn_add_lam : forall c ks m f, cn (add_lam c ks m) f = cn c f. Proof. reflexivity. Qed.
 
 (* read-through normalisation: goal, then only the hypotheses that mention a setter *)
 Ltac sproj_g := cbn [s_tso s_kst s_sent s_dlv s_cl s_own s_crashed s_cts s_csl s_seen s_gc s_rs s_wr
@@ -33,15 +35,15 @@ Ltac sproj_h H := cbn [s_tso s_kst s_sent s_dlv s_cl s_own s_crashed s_cts s_csl
                    setc kset add_sent add_dlv
                    w_tso w_kst w_sent w_dlv w_cl w_own w_crashed w_cts w_csl w_seen w_gc w_rs w_wr] in H.
 Ltac cns_g :=
-  repeat (rewrite ?cn_set_muts, ?cn_add_pwok, ?cn_incn_eq, ?cn_setn_eq;
+  repeat (rewrite ?cn_set_muts, ?cn_add_pwok, ?cn_add_kl, ?cn_add_lam, ?cn_incn_eq, ?cn_setn_eq;
           try rewrite cn_incn_ne by discriminate;
           try rewrite cn_setn_ne by discriminate);
-  cbn [c_lm c_all c_pwok setn incn set_muts add_pwok].
+  cbn [c_lm c_all c_pwok c_kl c_lam setn incn set_muts add_pwok add_kl add_lam].
 Ltac cns_h H :=
-  repeat (rewrite ?cn_set_muts, ?cn_add_pwok, ?cn_incn_eq, ?cn_setn_eq in H;
+  repeat (rewrite ?cn_set_muts, ?cn_add_pwok, ?cn_add_kl, ?cn_add_lam, ?cn_incn_eq, ?cn_setn_eq in H;
           try rewrite cn_incn_ne in H by discriminate;
           try rewrite cn_setn_ne in H by discriminate);
-  cbn [c_lm c_all c_pwok setn incn set_muts add_pwok] in H.
+  cbn [c_lm c_all c_pwok c_kl c_lam setn incn set_muts add_pwok add_kl add_lam] in H.
 Ltac rd_g :=
   repeat rewrite ?kget_setc, ?kget_add_sent, ?kget_add_dlv, ?kget_w_cts, ?kget_w_rs, ?kget_w_wr,
                  ?getc_setc_eq, ?getc_add_sent, ?getc_add_dlv, ?getc_w_cts, ?getc_w_rs, ?getc_w_wr;
@@ -63,6 +65,8 @@ Ltac rd :=
          | H : context [incn _ _] |- _ => progress (cns_h H)
          | H : context [add_pwok _ _] |- _ => progress (cns_h H)
          | H : context [set_muts _ _ _] |- _ => progress (cns_h H)
+         | H : context [add_kl _ _ _] |- _ => progress (cns_h H)
+         | H : context [add_lam _ _ _] |- _ => progress (cns_h H)
          end.
 
 Ltac unf := unfold F, hasm, prim, lm, pwok in *.
